@@ -120,6 +120,73 @@ func runC05(c *Check) {
 	c.legendTotals()
 	c.edgeSymmetry()
 	c.keptSetUse()
+	c.residualFlag()
+}
+
+// residualFlag (R6): in newGraph the residual flag is a function of the frames dropped
+// since the last kept frame: at the head of the frame loop it is either false (start of a
+// sample, or a kept frame was just processed) or true on the path where the frame's node
+// is nil.  Any other incoming value (e.g. the flag carried around the loop unchanged by a
+// `continue`) lets a stale flag mark a direct edge residual or drop a leaf's flat value.
+func (c *Check) residualFlag() {
+	p := c.P
+	f := c.anchorFn("C05-R6", "internal/graph", "newGraph")
+	if f == nil {
+		return
+	}
+	// the flag is identified by its use, not by its name: the value handed to
+	// AddToEdgeDiv as the `residual` argument, and the phis it is merged from
+	flag := map[*ssa.Phi]bool{}
+	var grow func(v ssa.Value)
+	grow = func(v ssa.Value) {
+		if ph, ok := v.(*ssa.Phi); ok && !flag[ph] {
+			flag[ph] = true
+			for _, e := range ph.Edges {
+				grow(e)
+			}
+		}
+	}
+	for _, b := range f.Blocks {
+		for _, ins := range b.Instrs {
+			if call, ok := ins.(*ssa.Call); ok && call.Call.StaticCallee() != nil && call.Call.StaticCallee().Name() == "AddToEdgeDiv" && len(call.Call.Args) >= 5 {
+				grow(call.Call.Args[4])
+			}
+		}
+	}
+	n := 0
+	for _, b := range f.Blocks {
+		for _, ins := range b.Instrs {
+			phi, ok := ins.(*ssa.Phi)
+			if !ok || !flag[phi] {
+				continue
+			}
+			header := false
+			for _, pred := range b.Preds {
+				if b.Dominates(pred) {
+					header = true
+				}
+			}
+			for i, e := range phi.Edges {
+				n++
+				key := fmt.Sprintf("residual:block%d:edge%d", b.Index, i)
+				switch x := e.(type) {
+				case *ssa.Const:
+					c.ok("C05-R6", key, p.relFile(phi.Pos()), "residual flag "+x.Value.String()+" on this path", "constant: reset after a kept frame / start of sample, or set on a dropped frame")
+				case *ssa.Phi:
+					if header && flag[x] {
+						c.ok("C05-R6", key, p.relFile(phi.Pos()), "residual flag enters or continues a loop", "loop-head merge of the flag of the enclosing / previous iteration, which is itself built from constants")
+					} else {
+						c.bad("C05-R6", "residual:carried", p.relFile(phi.Pos()), "a path through the frame loop body leaves the residual flag as it was (neither reset after a kept frame nor set on a dropped one): a stale flag marks a direct edge residual or drops a leaf's flat value")
+					}
+				default:
+					c.bad("C05-R6", "residual:carried", p.relFile(phi.Pos()), "the residual flag takes a value that is not a constant ("+describeValue(e)+")")
+				}
+			}
+		}
+	}
+	if n < 3 {
+		c.undecided("C05-R6", "residual:count", p.relFile(f.Pos()), "the residual flag of newGraph was not found")
+	}
 }
 
 // legendTotals (R3)
@@ -455,8 +522,44 @@ func (c *Check) keptSetUse() {
 				bad = fmt.Sprintf("kept used by %T", r)
 			}
 		}
+		// the membership test comes before any existing node can be returned
 		if bad == "" {
-			c.ok("C05-R5", "kept:FindOrInsertNode", p.relFile(fi.Pos()), "the kept parameter of FindOrInsertNode", "only compared with nil and looked up (membership); never stored or passed on")
+			var keptLookup *ssa.Lookup
+			for _, r := range *kept.Referrers() {
+				if lk, ok := r.(*ssa.Lookup); ok {
+					keptLookup = lk
+				}
+			}
+			for _, b := range fi.Blocks {
+				ret, isRet := b.Instrs[len(b.Instrs)-1].(*ssa.Return)
+				if !isRet {
+					continue
+				}
+				if k, isConst := ret.Results[0].(*ssa.Const); isConst && k.IsNil() {
+					continue
+				}
+				// a non-nil node is returned: unreachable when kept != nil and the info is not in it
+				reach := reachUnder(fi, func(cond ssa.Value) int {
+					if cmp, ok := cond.(*ssa.BinOp); ok && (cmp.X == ssa.Value(kept) || cmp.Y == ssa.Value(kept)) {
+						if cmp.Op == token.NEQ {
+							return 1
+						}
+						if cmp.Op == token.EQL {
+							return -1
+						}
+					}
+					if keptLookup != nil && isExtractOf(cond, keptLookup, 1) {
+						return -1
+					}
+					return 0
+				})
+				if reach[b] {
+					bad = "a node can be returned although a kept-set was given and does not contain it (the existing-node lookup is not preceded by the kept test)"
+				}
+			}
+		}
+		if bad == "" {
+			c.ok("C05-R5", "kept:FindOrInsertNode", p.relFile(fi.Pos()), "the kept parameter of FindOrInsertNode", "only compared with nil and looked up (membership); never stored or passed on; no node is returned for an info outside a given kept-set")
 		} else {
 			c.bad("C05-R5", "kept:FindOrInsertNode", p.relFile(fi.Pos()), "FindOrInsertNode uses the kept set for more than a membership test: "+bad)
 		}
